@@ -379,6 +379,19 @@ def gen_C14(rng, tier):
 
 def gen_C13(rng, tier):
     out = []
+    # the read calls APPEND to the caller's vectors: with items already in them the answer is the same
+    for p in (0, 4):
+        h = Hist(p)
+        h.new()
+        h.pushrun(1000, 7, 40, 3)
+        h.pushrun(h.last() + 100000, 7, 30, 4)
+        h.pushrun(h.last() + 100000, 7, 25, 5)
+        for pre in (1, 3, 50):
+            for n in (1, 2, 5, 60, 95, 200):
+                h.op(f"read_first_n n={n} s=U e=U pre={pre}")
+                h.op(f"read_first_n n={n} s=I:1100 e=I:{h.ts[-10]} pre={pre}")
+            h.op(f"read_all s=I:1100 e=I:{h.ts[-10]} pre={pre}")
+        out.append((f"prefilled-vectors-p{p}", h.script()))
     # very sparse series (every line opens a section) and LARGE n: thousands of section headers lie
     # between the first and the n-th line of the range
     for p, count in ([(8, 3000), (0, 1500)] if tier == "quick" else [(8, 6000), (4, 3000), (0, 3000), (2, 3000)]):
@@ -1778,6 +1791,26 @@ def gen_C17(rng, tier):
             h.op("files")
         out.append(("contract", h.script()))
     out += text_header_battery(tier)
+    # stored header lengths around powers of two (read-ahead / buffer sizes inside the file layer)
+    for p in (0, 8):
+        base = header_len(p, 0) - 4            # stored header without user bytes
+        for target in (4096, 8192, 16384, 32768):
+            h = None
+            for d in range(-6, 7):
+                ul = target + d - base
+                hdr = bytes((i * 13 + d) % 256 for i in range(ul))
+                hh = Hist(p, hdr=hdr)
+                hh.new()
+                hh.push(5, pl=bytes(p))
+                hh.op("close")
+                hh.open()                                   # any header: must come back whole
+                hh.op("close")
+                hh.open(hdr=hdr, p=p)                       # the exact header: accepted
+                hh.op("len")
+                hh.op("close")
+                hh.open(hdr=hdr[:-1])                       # one byte shorter: another header
+                hh.op("close")
+                out.append((f"header-len-{target}{d:+d}-p{p}", hh.script()))
     # series names that contain a dot: every way of naming the series (with / without the file
     # extension) x every builder flavour must reach the same files
     for nm in ("s.v2", "s.4"):
